@@ -317,6 +317,30 @@ def run(pid, tier, replay, start):
     rep = glib.Reporter(pid)
     ts = types(tier)
     insts = [Instance(i, ret_ty(t), render(i, t), {"node": t}) for i, t in enumerate(ts)]
+    # the same types with the self lifetime spelled out: `fn f<'a>(&'a self) -> Option<&'a u32>` is
+    # the same method as its elided twin
+    import re
+
+    def depth(t):
+        if isinstance(t, tuple) and t and t[0] in ("opt", "vec", "poll"):
+            return 1 + depth(t[1])
+        if isinstance(t, tuple) and t and t[0] == "res":
+            return 1 + max(depth(t[1]), depth(t[2]))
+        if isinstance(t, tuple) and t and t[0] == "tup":
+            return 1 + max(depth(x) for x in t[1])
+        return 0
+
+    for t in ts:
+        rt = ret_ty(t)
+        if not re.search(r"&(?!'static)", rt) or depth(t) > 2:
+            continue
+        code = render(len(insts), t)
+        decl = f"fn f(&self) -> {rt};"
+        if decl not in code:
+            continue
+        rt_a = re.sub(r"&(?!'static)", "&'a ", rt)
+        code = code.replace(decl, f"fn f<'a>(&'a self) -> {rt_a};", 1)
+        insts.append(Instance(len(insts), "explicit-lifetime:" + rt, code, {"node": t}))
     if replay:
         import json
         want = json.load(open(replay))["case"]["return_type"]
@@ -347,13 +371,20 @@ def run(pid, tier, replay, start):
     for k, v in results.items():
         if isinstance(k, tuple):
             rep.violation("generated-program-died", v[1], {"bin": k[1]})
+    # a signature with the self lifetime spelled out is the same method as its elided twin: if the
+    # twin is accepted and configured with the same values, so must the explicit form be
+    kept_keys = {i.key for i in kept}
+    for i in rejected:
+        k = by_idx[i].key
+        if k.startswith("explicit-lifetime:") and k[len("explicit-lifetime:"):] in kept_keys and not regen:
+            rep.violation(f"type:{k}", f"return type {k[len('explicit-lifetime:'):]} is accepted (and reproduces its values) with an elided self lifetime, but with the lifetime spelled out the same configuration does not compile: {getattr(crate, 'reasons', {}).get(i, '')}", {"return_type": k})
     if len(kept) < 30:
         glib.machinery("vacuous: fewer than 30 accepted return types")
     sample = kept[len(kept) // 2]
     cov = {
         "evaluations": len(kept),
         "distinct_nontrivial": len([i for i in kept if i.meta["node"][0] != "leaf"]),
-        "rule": "return types over {Option, Result, Vec, Poll, 1-4-tuples} x leaves {u32, NC (non-Clone), &u32, &str, &[u8], &'static u32}: all depth-1 types (tuples of arity 3-4 with <= 1 deviation from &u32), depth-2 compositions, depth-3 compositions (quick: a handful); per type every variant and Vec lengths 0..4, configured through the single-use and (when Clone) the multi-use path; non-trivial = composite type; distinct = distinct type texts",
+        "rule": "return types over {Option, Result, Vec, Poll, 1-4-tuples} x leaves {u32, NC (non-Clone), &u32, &str, &[u8], &'static u32}: all depth-1 types (tuples of arity 3-4 with <= 1 deviation from &u32), depth-2 compositions, depth-3 compositions (quick: a handful); per type every variant and Vec lengths 0..4, configured through the single-use and (when Clone) the multi-use path; every type of depth <= 2 with a leaf borrowed from self also with the self lifetime spelled out; non-trivial = composite type; distinct = distinct type texts",
         "samples": [{"return_type": sample.key, "code": sample.code[:1500]}],
         "exhaustive": True,
         "generated": n_generated,
